@@ -22,7 +22,7 @@ theorem unfoldItems_expRel {T : Types} :
   | (n, k) :: ks, (n', t) :: out, ⟨⟨hn, h1⟩, h2⟩, T', F, he, hF => by
     simp only at hn
     subst hn
-    simp only [unfoldItems, h1 T' F he hF, unfoldItems_expRel h2 T' F he hF, Forest.ofList, renF]
+    simp only [unfoldItems, h1.1 T' F he hF, unfoldItems_expRel h2 T' F he hF, Forest.ofList, renF]
   | [], _ :: _, hf, _, _, _, _ => hf.elim
   | _ :: _, [], hf, _, _, _, _ => hf.elim
 
@@ -53,8 +53,8 @@ theorem interfaceDecl_ok {st st' : St} {id : Option Str} {items : List Item} {i 
     obtain ⟨s', out'⟩ := res
     cases hr
     have hk := k1 container ifaces { next := next } [] (s', out)
-      (fun n => by simp [alGet, Scope.get]; trivial) (fun n q hq => by simp [Scope.get, alGet] at hq) trivial hres hnd
-    obtain ⟨_, _, hexp⟩ := hk
+      (fun n => by simp [alGet, Scope.get]; trivial) trivial hres hnd
+    obtain ⟨_, hexp⟩ := hk
     intro T' F he hF
     have hsz : kb (Elab.addInterface { st1 with scope := st.scope } itf).1.types = kb st1.types + 1 := by
       simp [kb, vb, Elab.addInterface, Types.size]; omega
